@@ -91,7 +91,7 @@ package crlstore
 //@   props C18 C12 C16
 //@   requires storeOK(self)
 //@   assigns X.fs
-//@   ensures[C18,C12,C16] empty_means_no_meta: !ret ==> storeHas(self, sum64(MetaInfoKey))
+//@   ensures[C10,C18,C12,C16] empty_means_no_meta: !ret ==> storeHas(self, sum64(MetaInfoKey))
 
 //@ func CRLStore.Update
 //@   props C08 C11 C18
@@ -248,7 +248,7 @@ package crlstore
 //@   props C08 C12 C20
 //@   requires S != nil && S.Logger != nil && db != nil
 //@   assigns X.fs, X.retry
-//@   ensures[C08,C11,C18] closed_handle_is_on_disk: err == nil ==> $fs_dskhas[$fs_dskpath[db]] == $ldbhas[db]
+//@   ensures[C08,C11,C18,C20] closed_handle_is_on_disk: err == nil ==> $fs_dskhas[$fs_dskpath[db]] == $ldbhas[db]
 //@   ensures (forall q string :: q != $fs_dskpath[db] ==> $fs_dskhas[q] == old($fs_dskhas[q])) && $fs_dskexists == old($fs_dskexists) && $fs_dskpath == old($fs_dskpath)
 //@ func LevelDbStore.removeWithRetries
 //@   props C08 C12 C20
